@@ -89,6 +89,19 @@ def expectations(patch):
     return exp
 
 
+def allowed_new(patch):
+    """`# allow-new: <rule>,..`: rules whose failing instances may be RE-KEYED by a keep patch (a listed finding whose
+    site moved into an extracted helper keeps failing under a new key; that is the same defect, not a false alarm)"""
+    out = []
+    with open(patch) as fh:
+        for line in fh:
+            if line.startswith("# allow-new:"):
+                out = [x.strip() for x in line.split(":", 1)[1].split(",") if x.strip()]
+            if not line.startswith("#"):
+                break
+    return out
+
+
 def collect(props):
     items = []
     for d in sorted(glob.glob(os.path.join(V, "selftest", "C*"))):
@@ -160,7 +173,9 @@ def main(argv):
                 res["result"] = "MUTANT-DOES-NOT-COMPILE"
                 rc = rc or 1
             elif kind == "keep":
-                res["result"] = "PASS" if not new and not fatal else "FALSE-ALARM"
+                allow = allowed_new(patch)
+                new_eff = [x for x in new if not any(x[0] == a or x[0].startswith(a) for a in allow)]
+                res["result"] = "PASS" if not new_eff and not fatal else "FALSE-ALARM"
             elif kind == "repair":
                 # a repair of a listed finding: the baseline failures of the named rules disappear, nothing new fails
                 gone = sorted(base[prop] - failing)
